@@ -318,9 +318,10 @@ def main():
 
 ASSUMPTIONS = [
     "Verus 0.2026.09.13 + Z3, Kani 0.68 + CBMC 6.11 and rustc are sound; 64-bit target (global size_of usize == 8)",
-    "std / dependency specifications in contracts/std_specs.rs (slice fill/rotate, Vec IndexMut for ranges, Line::clone structural, Range::clone, char ordering, rgb::RGB8 opaque) and vstd's own std specifications",
+    "std / dependency specifications in contracts/std_specs.rs (slice fill/rotate, Vec IndexMut for ranges, Vec::drain yields the range in order, Vec<T>: Extend<&T> appends in order, str::trim_end = strip trailing White_Space, str::trim_end_matches(char) = strip trailing occurrences, char::is_ascii_control / is_control / is_ascii, Line::clone structural, Range::clone, mem::take, char ordering, rgb::RGB8 opaque) and vstd's own std specifications (Vec, slices, String::push_str/clear/is_empty, str::to_owned, Take<slice::Iter>)",
     "allocation: sizes, scrollback limits and line counts are below 2^59 (MEM_MAX) and allocation never fails",
-    "external_body contracts are assumptions inside Verus; each is checked on the real code by a Kani unit, complete or up to its stated bound (see coverage.kani)",
+    "external_body contracts are assumptions inside Verus; each is checked on the real code by a Kani unit, complete or up to its stated bound (see coverage.kani), except Line::text (chars().collect()), Cell::width, Color::rgb, SavedCtx::is_default, TextUnwrapper::new; reflow's contract (rows at the new width, logical lines and their count kept) is checked only up to 3 rows / width 3",
+    "Vt::feed_str (fold of Parser::feed / Terminal::execute, then changes() and gc()) and Vt::resize are reviewed-only glue outside both engines; their token streams are pinned and an edit leaves the properties resting on them undecided",
     "weaving normalisations N1 (pattern parameters), N2 (destructuring assignment), N3 (visibility -> pub), N4 (closure return type + braces) are semantics-preserving; all other inserted text is ghost and erased",
     "the transcription of Paul Williams' parser diagram, the VT100 special-graphics table and the SGR table into spec functions (contracts/parser.extra.rs, charset.extra.rs, pen.extra.rs)",
     "safe Rust without statics / interior mutability / I/O is deterministic (used to lift per-call contracts to whole histories)",
